@@ -13,6 +13,7 @@ type EncInfo struct {
 	Coding  string
 	Payload []*Str
 	ID      int
+	Members int // > 1: the stream consists of several members (gzip); a reader told not to continue reads the first only
 }
 
 // CodecInfo marks an opaque byte string as the serialisation of one value by encoding/json or encoding/xml
@@ -58,6 +59,9 @@ func (e *Exec) readerContent(st *State, r Value, depth int) (chunks []*Str, sour
 	if depth > 8 {
 		return nil, nil, "unknown"
 	}
+	if depth == 0 {
+		e.badPartial = false
+	}
 	switch x := r.(type) {
 	case *Iface:
 		if x.T == nil {
@@ -74,6 +78,13 @@ func (e *Exec) readerContent(st *State, r Value, depth int) (chunks []*Str, sour
 		}
 		switch o := st.heap[x.Obj].V.(type) {
 		case *StructV:
+			if t := st.heap[x.Obj].Typ; len(x.Path) == 0 && t != nil && t.String() == "bytes.Buffer" {
+				d, ok := o.F[0].(*Str)
+				if !ok || d.Nil || (d.IsConc && d.Conc == "") {
+					return nil, []*Ptr{x}, "bad" // nothing (left) to read
+				}
+				return flattenBody(d, nil), []*Ptr{x}, "ok"
+			}
 			if len(x.Path) == 0 && len(o.F) == 1 {
 				return e.readerContent(st, o.F[0], depth+1)
 			}
@@ -105,7 +116,14 @@ func (e *Exec) readerContent(st *State, r Value, depth int) (chunks []*Str, sour
 					return nil, srcs, stt
 				}
 				if len(in) != 1 || in[0].Enc == nil || in[0].Enc.Coding != coding {
+					// a stream that was cut short delivers what it still holds before it fails; one whose header is
+					// destroyed (or that is no stream at all) delivers nothing
+					e.badPartial = len(in) == 1 && in[0].Enc != nil && in[0].Enc.Coding == "corrupt" && in[0].Enc.Members == 0
 					return nil, srcs, "bad"
+				}
+				if ms, ok := o.F["multistream"].(*sym.Term); ok && ms.IsFalse() && in[0].Enc.Members > 1 {
+					e.badPartial = true
+					return nil, srcs, "bad" // only the first member is delivered: a cut document
 				}
 				var out []*Str
 				for _, c := range in[0].Enc.Payload {
@@ -120,10 +138,79 @@ func (e *Exec) readerContent(st *State, r Value, depth int) (chunks []*Str, sour
 
 func (e *Exec) consumeSources(st *State, srcs []*Ptr) {
 	for _, p := range srcs {
-		if mv, ok := st.heap[p.Obj].V.(*ModelV); ok {
-			st.setObj(p.Obj, mv.with("consumed", e.C.True))
+		switch o := st.heap[p.Obj].V.(type) {
+		case *ModelV:
+			st.setObj(p.Obj, o.with("consumed", e.C.True))
+		case *StructV: // bytes.Buffer: drained
+			st.store(p.sub(0), e.ConcStr(""))
 		}
 	}
+}
+
+// packChunks: one byte string standing for the concatenation of the chunks (their tags stay visible).
+func (e *Exec) packChunks(st *State, chunks []*Str) *Str {
+	var keep []*Str
+	for _, c := range chunks {
+		if !(c.IsConc && c.Conc == "") {
+			keep = append(keep, c)
+		}
+	}
+	switch len(keep) {
+	case 0:
+		return e.ConcStr("")
+	case 1:
+		return keep[0]
+	}
+	tok := e.opaqueStr(st, "joined", 2)
+	e.assumeTrusted(st, e.C.Sge(tok.Len, e.i64(1)))
+	tok.Enc = &EncInfo{Coding: "", Payload: keep, ID: -1}
+	return tok
+}
+
+// readAllOf: what reading r to the end yields: the data (an opaque rest for a failing stream) and whether it failed.
+func (e *Exec) readAllOf(st *State, r Value) (*Str, bool, bool) {
+	chunks, srcs, status := e.readerContent(st, r, 0)
+	if status == "unknown" {
+		return nil, false, false
+	}
+	e.consumeSources(st, srcs)
+	if status != "ok" {
+		if e.badPartial {
+			return e.opaqueStr(st, "partial", 2), true, true
+		}
+		return e.ConcStr(""), true, true
+	}
+	return e.packChunks(st, chunks), false, true
+}
+
+// decodeChunks: the decoder of the kind applied to a document given as chunks; stores into target on success.
+func (e *Exec) decodeChunks(st *State, kind string, chunks []*Str, target Value, useNumber bool) Value {
+	var doc *Str
+	for _, c := range chunks {
+		switch {
+		case c.Codec != nil && doc == nil:
+			doc = c
+		case c.Codec == nil && c.IsConc && (c.Conc == "" || (kind == "xml" && doc == nil && c.Conc == xmlHeader)):
+		default:
+			return e.errorValue(st, kind+": syntax error (stub)")
+		}
+	}
+	if doc == nil || doc.Codec.Kind != kind {
+		return e.errorValue(st, kind+": syntax error (stub)")
+	}
+	// store the value into the target when it has the type that was serialised
+	if tgt, ok := target.(*Iface); ok && tgt.T != nil {
+		if pt, ok := tgt.T.Underlying().(*types.Pointer); ok {
+			if p, ok := tgt.V.(*Ptr); ok && !p.IsNil() && types.Identical(pt.Elem(), doc.Codec.T) {
+				v := doc.Codec.Val
+				if kind == "json" && !useNumber {
+					v = e.lossyNumbers(st, v)
+				}
+				st.store(p, v)
+			}
+		}
+	}
+	return nilIface
 }
 
 // lossyNumbers: what encoding/json makes of numbers decoded into interface{} without UseNumber: float64. Modelled
@@ -292,38 +379,53 @@ func registerCodecs(m map[string]Intrinsic) {
 			if status != "ok" {
 				return val(e.errorValue(st, kind+": unreadable input (stub)"))
 			}
-			var doc *Str
-			for _, c := range chunks {
-				switch {
-				case c.Codec != nil && doc == nil:
-					doc = c
-				case c.Codec == nil && c.IsConc && (c.Conc == "" || (kind == "xml" && doc == nil && c.Conc == xmlHeader)):
-				default:
-					return val(e.errorValue(st, kind+": syntax error (stub)"))
-				}
-			}
-			if doc == nil || doc.Codec.Kind != kind {
-				return val(e.errorValue(st, kind+": syntax error (stub)"))
-			}
-			// store the value into the target when it has the type that was serialised
-			if tgt, ok := ci.Args[1].(*Iface); ok && tgt.T != nil {
-				if pt, ok := tgt.T.Underlying().(*types.Pointer); ok {
-					if p, ok := tgt.V.(*Ptr); ok && !p.IsNil() && types.Identical(pt.Elem(), doc.Codec.T) {
-						v := doc.Codec.Val
-						un, _ := mv.F["usenumber"].(*sym.Term)
-						if kind == "json" && (un == nil || !un.IsTrue()) {
-							v = e.lossyNumbers(st, v)
-						}
-						st.store(p, v)
-					}
-				}
-			}
-			return val(nilIface)
+			un, _ := mv.F["usenumber"].(*sym.Term)
+			return val(e.decodeChunks(st, kind, chunks, ci.Args[1], un != nil && un.IsTrue()))
 		}
 	}
 	m["(*encoding/json.Decoder).Decode"] = decode("json")
 	m["(*encoding/xml.Decoder).Decode"] = decode("xml")
 
+	unmarshal := func(kind string) Intrinsic {
+		return func(e *Exec, st *State, ci *CallInfo) Outcome {
+			return val(e.decodeChunks(st, kind, flattenBody(sArg(ci, 0), nil), ci.Args[1], false))
+		}
+	}
+	m["encoding/json.Unmarshal"] = unmarshal("json")
+	m["encoding/xml.Unmarshal"] = unmarshal("xml")
+	readAll := func(e *Exec, st *State, ci *CallInfo) Outcome {
+		data, failed, ok := e.readAllOf(st, ci.Args[0])
+		if !ok {
+			unsupportedf("ReadAll of a reader the model cannot look into")
+		}
+		if failed {
+			return val(tuple(data, e.errorValue(st, "unexpected EOF (stub)")))
+		}
+		return val(tuple(data, nilIface))
+	}
+	m["io.ReadAll"] = readAll
+	m["io/ioutil.ReadAll"] = readAll
+	m["(*bytes.Buffer).ReadFrom"] = func(e *Exec, st *State, ci *CallInfo) Outcome {
+		p := ci.Args[0].(*Ptr)
+		data, failed, ok := e.readAllOf(st, ci.Args[1])
+		if !ok {
+			unsupportedf("ReadFrom of a reader the model cannot look into")
+		}
+		old, _ := st.load(p.sub(0)).(*Str)
+		if old == nil || old.Nil {
+			old = e.ConcStr("")
+		}
+		st.store(p.sub(0), e.packChunks(st, append(flattenBody(old, nil), flattenBody(data, nil)...)))
+		if failed {
+			return val(tuple(e.lenOf(data), e.errorValue(st, "unexpected EOF (stub)")))
+		}
+		return val(tuple(e.lenOf(data), nilIface))
+	}
+	m["(*compress/gzip.Reader).Multistream"] = func(e *Exec, st *State, ci *CallInfo) Outcome {
+		p, mv := e.model(st, ci.Args[0], "gzip.Reader")
+		st.setObj(p.Obj, mv.with("multistream", ci.Args[1]))
+		return val(nil)
+	}
 	// ---- compressors: typestate objects
 	newWriter := func(kind string) Intrinsic {
 		return func(e *Exec, st *State, ci *CallInfo) Outcome {
@@ -393,7 +495,7 @@ func registerCodecs(m map[string]Intrinsic) {
 	}
 	m["(*compress/gzip.Reader).Reset"] = func(e *Exec, st *State, ci *CallInfo) Outcome {
 		p, mv := e.model(st, ci.Args[0], "gzip.Reader")
-		st.setObj(p.Obj, mv.with("src", ci.Args[1]))
+		st.setObj(p.Obj, mv.with("src", ci.Args[1]).with("multistream", e.C.True))
 		if _, _, status := e.readerContent(st, p, 0); status == "ok" {
 			return val(nilIface)
 		} else if status == "bad" {
@@ -477,10 +579,15 @@ func registerCodecs(m map[string]Intrinsic) {
 		tok := e.opaqueStr(st, "packed", 2)
 		e.assumeTrusted(st, e.C.Sge(tok.Len, e.i64(1)))
 		tok.Enc = &EncInfo{Coding: coding, Payload: chunks, ID: -1}
+		if coding == "gzip2" { // the same bytes as a gzip stream of two members
+			tok.Enc.Coding, tok.Enc.Members = "gzip", 2
+		}
 		return val(tok)
 	}
 	m[hp+"verifCorruptBody"] = func(e *Exec, st *State, ci *CallInfo) Outcome {
-		return val(e.opaqueStr(st, "corrupt", 2))
+		tok := e.opaqueStr(st, "corrupt", 2)
+		tok.Enc = &EncInfo{Coding: "corrupt", Members: constInt(ci.Args[1], "corruption mode"), ID: -1} // Members: the mode (0 cut short, 1 header destroyed)
+		return val(tok)
 	}
 	m[hp+"verifAsInt64"] = func(e *Exec, st *State, ci *CallInfo) Outcome {
 		if i, ok := ci.Args[0].(*Iface); ok && i.T != nil {
